@@ -12,7 +12,7 @@ CHECKS = {
   technique="fault enumeration: rapid-generated histories x exhaustive/structured crash-image enumeration on a simulated disk, model oracle",
   design="4/C01"),
  "C08": dict(level="fault_enumeration",
-  text="I/O fault enumeration: each generated history is run fault-free to count the I/O calls, then re-run with fault plans (kind, ordinal, burst, mode) - sampled in quick, complete sweep for small histories in thorough - checking: no panic/hang, a commit (or a Begin that has to restore the file header) hit by a fault fails, in-process readers keep the last successful state, post-fault transactions commit, clean reopen shows an allowed state, file stays usable; for runs with a commit attempt that failed by syncs only, the crash images from that attempt to the end of the run are enumerated and must show, completely, the last successful state, the commit in progress or such an unconfirmed attempt.",
+  text="I/O fault enumeration: each generated history is run fault-free to count the I/O calls, then re-run with fault plans (kind, ordinal, burst, mode) - sampled in quick, complete sweep for small histories in thorough - checking: no panic/hang, a commit (or a Begin that has to restore the file header) hit by a fault fails, in-process readers keep the last successful state, post-fault transactions commit, clean reopen shows an allowed state, file stays usable, a failed Commit leaves the allocator state exactly as it was when the transaction began and the page ownership partition intact (also for a constructed commit that moves the last data pages and overflow pages into the meta area by one request); for runs with a commit attempt that failed by syncs only, the crash images from that attempt to the end of the run are enumerated and must show, completely, the last successful state, the commit in progress or such an unconfirmed attempt.",
   note="Open finding F17 is reported as KNOWN-FINDING and recognised by its history pattern (a size/truncate/mmap failure hitting the tail of a Commit; dedicated oracle clause), F11 and F16 are repaired; writer drained so that call ordinals are program-determined.",
   technique="fault injection sweep over rapid-generated histories on a simulated disk, model oracle",
   design="4/C08"),
